@@ -29,3 +29,8 @@ def run(repo, res, tier):
     # membership (isinstance), the subclass before its superclass
     from .. import encrules as _enc14
     _enc14.rule_d1(repo, res)
+    # "rejects" means the refusal reaches the caller: a LexerError the decoder's refusal turns into is not caught and dropped
+    # by a broader handler on its way out of the parser (token-protocol interpreter, rule T2)
+    from .. import parserules as _pr14
+    _an14 = _pr14.analyse(repo)
+    _pr14.add_rule(res, _an14, "T2")
